@@ -22,7 +22,14 @@ pub fn dbg_parse(seed: u64, n: u64) -> i32 {
         let w = spec.build(crate::world::PolicyKind::Eager).unwrap();
         if let Ok(t) = crate::world::parse(&w.parser, &spec.template_src[0]) {
             let g = spec.globals();
-            if let crate::world::Outcome::Err { msg, .. } = crate::world::render_buffered(&t, &g[0]) {
+            let out = crate::world::render_buffered(&t, &g[0]);
+            if let crate::world::Outcome::Panic(m) = &out {
+                *tally.entry(format!("PANIC {m}")).or_insert(0u64) += 1;
+                if std::env::var("DBG_SHOW_PANIC").is_ok() {
+                    println!("--- PANIC {m}\n{}\n{}", spec.template_src[0], spec.datas[0].show());
+                }
+            }
+            if let crate::world::Outcome::Err { msg, .. } = out {
                 let key: String = msg.lines().filter(|l| !l.trim_start().starts_with("from:") && !l.contains("with:")).take(2).collect::<Vec<_>>().join(" | ");
                 *tally.entry(key).or_insert(0u64) += 1;
             }
